@@ -11,7 +11,7 @@ Extract Constant Z.gcd => "Big_int_Z.gcd_big_int".
 Extraction Language OCaml.
 Extraction "model.ml" insphere_model in_gridb
   cyc_new cyc_grow cyc_init cyc_try_extend cyc_iter clip_comb
-  build build_all cell_init clip bisector max_radius2 decompose decompose_faces faces_of
+  build build_all build_regularb cell_init clip bisector max_radius2 decompose decompose_faces faces_of
   vol6_of centroid_sum moment2 face_area2n face_centroid_sum plane_has_tet side norm2 vertices_feasible duals_oriented
   assemble tess_neighbour_ids face_integrals face_integrals_sym cell_integrals cell_is_active face_indices
   BestFirst.visits Knn.knn_search
